@@ -27,7 +27,7 @@ RULE = ("per run a history of 6-40 operations: create mode (ECB/CBC/CFB-s/OFB/CT
 REAL = ["pyaes.aes (AES, all modes, Counter)", "pyaes.blockfeeder (Encrypter, Decrypter, stream pumps)", "pyaes.util",
         "register_crypto_plugin.AES128Proxy via bec2format.crypto.create_AES128"]
 STUBS = ["input/output streams: SimByteStream (short reads)", "RefAES (bit-level reference)"]
-PROBES = ["ctr-wrap", "cfb-partial-final-segment", "feeder-chunk-zero", "short-read", "adapter-reused",
+PROBES = ["both-directions-on-one-object", "ctr-wrap", "cfb-partial-final-segment", "feeder-chunk-zero", "short-read", "adapter-reused",
           "adapter-trailing-zero-plaintext", "interleaved-objects", "key-24", "key-32", "pump-block-size-1",
           "decrypter-pkcs7"]
 ASSUMPTIONS = ["sharing one *mode* object between two feeders has no defined result and is not generated"]
@@ -45,7 +45,7 @@ def gen(st, tier):
         r = w.random()
         live = [o for o in objs if not o.get("done")]
         if r < 0.25 or not live:
-            kind = w.choice(["feeder", "feeder", "direct", "adapter", "pump"])
+            kind = w.choice(["feeder", "feeder", "direct", "adapter", "pump", "raw"])
             key = rbytes(w, w.choice([16, 16, 24, 32])).hex()
             mode = w.choice(MODES)
             iv = rbytes(w, 16).hex() if w.random() < 0.8 else None
@@ -53,6 +53,9 @@ def gen(st, tier):
             ctr = w.choice([1, 0, (1 << 128) - 2, (1 << 128) - 1, w.getrandbits(128)])
             if kind == "adapter":
                 o = {"id": nobj, "kind": "adapter", "key": rbytes(w, 16).hex(), "iv": iv}
+            elif kind == "raw":
+                # stateless objects used in both directions: the block cipher itself or an ECB mode object
+                o = {"id": nobj, "kind": "raw", "key": key, "ecb": w.random() < 0.5}
             elif kind == "pump":
                 data = rbytes(w, w.choice([0, 1, 15, 16, 17, 100, 500, 9000]))
                 o = {"id": nobj, "kind": "pump", "mode": mode, "key": key, "iv": iv, "seg": seg, "ctr": str(ctr),
@@ -78,6 +81,8 @@ def gen(st, tier):
             if what == "dec":
                 d = d + bytes(-len(d) % 16)
             ops.append(["adapter", o["id"], what, bytes(d).hex()])
+        elif o["kind"] == "raw":
+            ops.append(["raw", o["id"], w.choice(["enc", "dec"])])
         elif o["kind"] == "feeder":
             if w.random() < 0.2:
                 ops.append(["finish", o["id"]])
@@ -174,6 +179,11 @@ def run(case):
                         s["calls"] = 0
                     elif o["kind"] == "direct":
                         s["obj"] = _make_mode(o)
+                    elif o["kind"] == "raw":
+                        k_ = bytes.fromhex(o["key"])
+                        s["obj"] = env.pyaes.aes.AESModeOfOperationECB(k_) if o["ecb"] else env.pyaes.aes.AES(k_)
+                        s["ref"] = refaes.RefAES(k_)
+                        s["calls"] = []
                     elif o["kind"] == "feeder":
                         mode = _make_mode(o)
                         if o["dir"] == "enc":
@@ -252,6 +262,29 @@ def run(case):
                             out.fail("C16.adapter-differs", "roundtrip",
                                      "decrypt(encrypt(x)) returned %d bytes %s, expected the zero-padded input %s"
                                      % (len(back), bytes(back).hex(), refaes.zpad(d).hex()))
+                continue
+            if k == "raw":
+                d = op[2]
+                blk = bytes(rnd.getrandbits(8) for _ in range(16))
+                s["calls"].append(d)
+                try:
+                    if o["ecb"]:
+                        got = s["obj"].encrypt(blk) if d == "enc" else s["obj"].decrypt(blk)
+                    else:
+                        got = bytes(s["obj"].encrypt(list(blk)) if d == "enc" else s["obj"].decrypt(list(blk)))
+                except Exception as e:
+                    out.fail("C16.direct-raises", exc_site(e), "%s %s raised %s: %s" % (
+                        "ECB" if o["ecb"] else "AES", d, type(e).__name__, e))
+                    continue
+                exp = s["ref"].enc(blk) if d == "enc" else s["ref"].dec(blk)
+                out.ev("raw", oid, d)
+                if len(set(s["calls"])) == 2:
+                    out.probes["both-directions-on-one-object"] += 1
+                    out.nontrivial = True
+                if bytes(got) != exp:
+                    out.fail("C16.block-differs", "%s-%s" % ("ecb" if o["ecb"] else "aes", d),
+                             "%s object (key %d bytes): %s of a block differs from FIPS-197 after the call history %s"
+                             % ("ECB" if o["ecb"] else "AES", len(o["key"]) // 2, d, s["calls"]))
                 continue
             if k == "feed":
                 n = op[2]
